@@ -14,7 +14,7 @@ use std::time::Duration;
 pub static META: Meta = Meta {
     id: "C20",
     level: "exploration",
-    rule: "1-2 writers, each the only writer of its relation, issue 3-6 operations (insert a batch of 3-5 tuples tagged with the batch id, delete a whole earlier batch) and after each acknowledged operation read their own relation; 2 readers query the relations (directly and through a persistent rule over them) 4-6 times each; the scheduler interleaves all threads at the hook points of insert/delete/snapshot publication; every answer must consist of whole batches only, must equal the writer's state after j operations for some j with acknowledged-at-call <= j <= begun-at-return, and a writer's own read must equal its own state exactly; distinct = schedule trace; non-trivial = >= 2 cross-thread alternations and >= 4 reads overlapping writes",
+    rule: "1-2 writers, each the only writer of its relation, issue 3-6 operations (insert a batch of 3-5 tuples tagged with the batch id, delete a whole earlier batch) and after each acknowledged operation read their own relation; 2 readers query the relations (directly and through a persistent rule over them) 4-6 times each; the scheduler interleaves all threads at the hook points of insert/delete/snapshot publication; every answer must consist of whole batches only, must equal the writer's state after j operations for some j with acknowledged-at-call <= j <= begun-at-return, and a writer's own read must equal its own state exactly; every 8th history runs without the scheduler (free-running threads, batches of up to 4500 tuples, readers polling until the writers finish) to reach races inside regions that have no hook point; distinct = schedule trace (free-running: the observed windows); non-trivial = >= 2 cross-thread alternations and >= 1 read overlapping a write (free-running: >= 3 overlapping reads)",
     assumptions: &["begun/acknowledged counters are read by the readers themselves right before the call and right after the return (boundary stamps)", "seeded random schedules over the hook points"],
     floor: 30,
     watchdog: (40_000, 120_000),
@@ -82,6 +82,9 @@ pub fn run(ctx: &mut Ctx) {
         let scratch = Scratch::new("c20");
         let o = StoreOpts { buffer_size: *r.pick(&[2usize, 10_000]), ..Default::default() };
         let Ok(e) = open(&scratch.path, &o) else { continue };
+        // every 8th history runs free (no scheduler: threads race inside the engine's own critical sections,
+        // where there are no hook points) with large batches and readers polling until the writers are done
+        let free = k % 8 == 7;
         let nw = 1 + r.below(2);
         let rels: Vec<String> = (0..nw).map(|w| format!("w{w}")).collect();
         // seed each relation so that it exists, and register the rule the readers use
@@ -103,7 +106,7 @@ pub fn run(ctx: &mut Ctx) {
                     ops.push(Op::Del(b, n));
                 } else {
                     let b = (w as i64 + 1) * 100 + i as i64;
-                    let n = 3 + r.below(3);
+                    let n = if free { *r.pick(&[3usize, 40, 700, 1100, 2100, 3300, 4500]) } else { 3 + r.below(3) };
                     live.push((b, n));
                     ops.push(Op::Ins(b, n));
                 }
@@ -116,9 +119,18 @@ pub fn run(ctx: &mut Ctx) {
         type Obs = (String, usize, usize, usize, Result<Vec<(i64, i64)>, String>, bool);
         let obs: Arc<parking_lot::Mutex<Vec<Obs>>> = Arc::new(parking_lot::Mutex::new(Vec::new()));
         let mut bodies: Vec<Box<dyn FnOnce() + Send>> = Vec::new();
+        let writers_done = Arc::new(AtomicUsize::new(0));
         for w in 0..nw {
             let (e, ops, rel, begun, acked, obs) = (Arc::clone(&e), plans[w].clone(), rels[w].clone(), Arc::clone(&begun), Arc::clone(&acked), Arc::clone(&obs));
+            let done = Arc::clone(&writers_done);
             bodies.push(Box::new(move || {
+                struct Done(Arc<AtomicUsize>);
+                impl Drop for Done {
+                    fn drop(&mut self) {
+                        self.0.fetch_add(1, Ordering::SeqCst);
+                    }
+                }
+                let _done = Done(done);
                 for op in ops {
                     begun[w].fetch_add(1, Ordering::SeqCst);
                     let ok = match &op {
@@ -138,10 +150,14 @@ pub fn run(ctx: &mut Ctx) {
         }
         for rd in 0..2usize {
             let (e, rels, begun, acked, obs) = (Arc::clone(&e), rels.clone(), Arc::clone(&begun), Arc::clone(&acked), Arc::clone(&obs));
-            let n = 4 + r.below(3);
+            let n = if free { 600 } else { 4 + r.below(3) };
             let via_rule = rd == 1;
+            let done = Arc::clone(&writers_done);
             bodies.push(Box::new(move || {
                 for i in 0..n {
+                    if free && i >= 4 && done.load(Ordering::SeqCst) >= rels.len() {
+                        break;
+                    }
                     let w = i % rels.len();
                     crate::sched_point();
                     let lo = acked[w].load(Ordering::SeqCst);
@@ -151,8 +167,17 @@ pub fn run(ctx: &mut Ctx) {
                 }
             }));
         }
-        let sched = Sched::new();
-        let out = sched.run(bodies, Strategy::Random(ctx.seed ^ k.wrapping_mul(0x6C07_8965)), Duration::from_secs(25), |_, _| None);
+        let out = if free {
+            let hs: Vec<_> = bodies.into_iter().map(std::thread::spawn).collect();
+            for h in hs {
+                let _ = h.join();
+            }
+            ctx.count("free_running_histories");
+            crate::sched::Outcome::default()
+        } else {
+            let sched = Sched::new();
+            sched.run(bodies, Strategy::Random(ctx.seed ^ k.wrapping_mul(0x6C07_8965)), Duration::from_secs(25), |_, _| None)
+        };
         ctx.eval();
         if out.timed_out {
             ctx.inconclusive(format!("case {k}: schedule did not finish (inconclusive)"));
@@ -160,7 +185,12 @@ pub fn run(ctx: &mut Ctx) {
         }
         let all = obs.lock().clone();
         let overlapping = all.iter().filter(|o| !o.5 && o.3 > o.2).count();
-        if alternations(&out.trace) >= 2 && overlapping >= 1 {
+        if free {
+            ctx.count_n("free_reads_overlapping_a_write", overlapping as u64);
+            if overlapping >= 3 {
+                ctx.nontrivial(crate::rng::hash_str(&format!("{k}:{:?}", all.iter().map(|o| (o.1, o.2, o.3)).collect::<Vec<_>>())));
+            }
+        } else if alternations(&out.trace) >= 2 && overlapping >= 1 {
             ctx.nontrivial(trace_hash(&out.trace));
         }
         ctx.count_n("reads", all.len() as u64);
@@ -179,7 +209,8 @@ pub fn run(ctx: &mut Ctx) {
                     if let Some(d) = judge(rows, &sts[*w], *lo, *hi) {
                         let class = d.split(':').next().unwrap_or("").to_string();
                         let kind = if *own { "own-read" } else if who.contains("rule") { "read-through-rule" } else { "read" };
-                        ctx.violation(k, &format!("C20:{class}:{kind}"), format!("{who} on {}: {d}", rels[*w]), wit(json!({"rows": rows})));
+                        let kind = if free { format!("{kind}:free-running") } else { kind.to_string() };
+                        ctx.violation(k, &format!("C20:{class}:{kind}"), format!("{who} on {}: {d}", rels[*w]), wit(if rows.len() > 200 { json!({"row_count": rows.len()}) } else { json!({"rows": rows}) }));
                         bad = true;
                         break;
                     }
